@@ -126,6 +126,10 @@ class Model (object):
     self.in_goup = False
     self.goup_returned = True
 
+  def abort_goup (self):
+    """goUp did not return (a listener's failure came out of it): start-up failed, goup_returned stays False."""
+    self.in_goup = False
+
   def take (self, d):
     self.outstanding.add(d)
 
